@@ -4,7 +4,7 @@ CONSTANTS QCap = 2 MaxPend = 1 MaxOps = 6
           NoInboundFilter = FALSE NoNullCheck = FALSE AnyoneOpens = FALSE
           RepIds = {1, 4, 7}
           TrackHistory = FALSE FlowCache = "none" HostIps = {"x"} HostPorts = {1}
-          StaleVerdict = "none" HopFollowsPeer = FALSE
+          StaleVerdict = "none" HopFollowsPeer = FALSE VerdictMemo = "none"
           FlagChoices = {{}, {"BT"}, {"IPV8", "RELAY"}, {"BT", "IPV8", "RELAY"}} SignedSrcs = {"prev", "port", "other"}
           SrcSet = {"prev", "port", "other"} DkSet = {"v4", "v6", "dom4"}
 INVARIANT TypeOK
@@ -13,3 +13,4 @@ INVARIANT NeverToNull
 INVARIANT OpenedOnlyByPrevHop
 INVARIANT EmitOnlyWhenOpen
 INVARIANT QueueClean
+INVARIANT VerdictByOwnShape
